@@ -90,6 +90,11 @@ def one_history(args):
                     return res
                 recovering = False
             c = rnd.random()
+            if snap >= 10000 and not recovering and rnd.random() < 0.25:
+                # compaction at a quiescent point (what the raft core does at its threshold, without applies running next to it)
+                sess.call("barrier", min_index=0, bound_ms=15000)
+                if sess.call("compact").get("ok"):
+                    res["classes"].add("explicit-compaction")
             if c < 0.45:
                 key = rnd.choice(KEYS)
                 n = rnd.choice([1, 1, 3, 20, 99, 100, 101, 250])
@@ -211,6 +216,11 @@ def one_history(args):
         snaps = [p for p in os.listdir(d) if p.startswith("snapshot_")]
         res["compactions"] = max([int(p.split("_")[1]) for p in snaps] or [0])
         if viols:
+            if snap < 10000:
+                # the raft core compacts by itself while entries are applied: the snapshot is then not a consistent cut (known finding of
+                # C01, entries between the recorded index and the dumped state are applied twice after the restart). What that does to the
+                # ids is the same root cause whatever the symptom, so these histories get their own class
+                viols = [(sym, key.replace("after-quiescent-restart", "after-quiescent-restart-with-automatic-compaction"), det) for sym, key, det in viols]
             res["violations"] = [{"signature": "%s/%s" % (sym, key), "witness": {"key": key, "detail": det, "history_seed": seed, "args": [seed, rounds, snap]}} for sym, key, det in viols]
         return res
     except noderig.NodeDied as e:
@@ -466,7 +476,8 @@ def run(tier, seed):
     try:
         n = 48 if tier == "quick" else 1200
         rnd = random.Random(seed)
-        jobs = [(wd, seed * 100000 + i, rnd.choice([25, 40, 60]), rnd.choice([5, 13, 25, 60])) for i in range(n)]
+        # 2 of 3 histories compact at quiescent points only (threshold never reached), 1 of 3 lets the raft core compact by itself
+        jobs = [(wd, seed * 100000 + i, rnd.choice([25, 40, 60]), rnd.choice([5, 13, 25, 60]) if i % 3 == 0 else 10000) for i in range(n)]
         with ThreadPoolExecutor(max_workers=common.NCPU) as ex:
             bm = [ex.submit(block_mark_history, (wd, seed * 100000 + 70000 + i, [99, 100, 101, 199, 200, 201][i % 6])) for i in range(3 if tier == "quick" else 12)]
             results = list(ex.map(one_history, jobs)) + [f.result() for f in bm]
